@@ -105,7 +105,8 @@ Proof.
   - destruct (keyDown_parses _ _ _ _ H H0) as (w & E & P). exists w; rewrite E; auto.
   - destruct (keyUp_parses _ _ _ _ H H0) as (w & E & P). exists w; rewrite E; auto.
   - destruct (move_ok _ _ x y H) as (p' & w & E & R & P); try lia.
-    rewrite E. exists w. split; [|exact P]. unfold mouseMove in E. inversion E; subst. reflexivity.
+    rewrite E. exists w. split; [|exact P]. apply Rel_ptr_eq in R. cbn in R. rewrite R.
+    destruct H as (_ & _ & Hb & _). rewrite Hb. reflexivity.
   - destruct (down_ok _ _ b H H0) as (p' & w & E & R & P). rewrite E. exists w. split; [|exact P].
     apply Rel_ptr_eq in R. cbn in R. rewrite R. reflexivity.
   - destruct (up_ok _ _ b H H0) as (p' & w & E & R & P). rewrite E. exists w. split; [|exact P].
